@@ -262,7 +262,7 @@ def validate_records(module, cfg, recs, *, scratch, timeout=1800, parallel=6, en
     if not recs:
         return [], dict(generated=0, distinct=0, wall=0.0, jobs=0)
     n = max(1, min(parallel, (len(recs) + 199) // 200))
-    size = (len(recs) + n - 1) // n
+    size = min((len(recs) + n - 1) // n, 3000)       # bounds the heap of one TLC process (long datagrams)
     chunks = [recs[i:i + size] for i in range(0, len(recs), size)]
 
     def one(ix_chunk):
